@@ -157,6 +157,24 @@ Theorem C19_haar_euler_beta_covers : forall n Phi, (2 <= n)%nat -> 0 <= Phi <= P
 Proof. exact haar_euler_beta_covers. Qed.
 Print Assumptions C19_haar_euler_beta_covers.
 
+(* three-uniform-samples ("quaternion") grid: the sheets u_1 = 0 and u_1 = 1 (all rotations
+   by pi about axes in the e2-e3 plane) belong to the grid for every (u_2, u_3) node, because
+   u_1 is sampled with its end point *)
+Theorem C19_three_uniform_reaches_sheets : forall n u2 u3, (2 <= n)%nat ->
+  In u2 (linspace ROps (c0 ROps) (c1 ROps) n false) ->
+  In u3 (linspace ROps (c0 ROps) (c1 ROps) n false) ->
+  In (three_uniform_point ROps 0 u2 u3) (three_uniform_grid ROps n) /\
+  In (three_uniform_point ROps 1 u2 u3) (three_uniform_grid ROps n).
+Proof. exact three_uniform_reaches_sheets. Qed.
+Print Assumptions C19_three_uniform_reaches_sheets.
+
+(* no hole in u_1: every u in [0, 1] is within half a step of a node of the u_1 axis *)
+Theorem C19_three_uniform_u1_covers : forall n u, (2 <= n)%nat -> 0 <= u <= 1 ->
+  exists u1, In u1 (linspace ROps (c0 ROps) (c1 ROps) n true) /\ 0 <= u1 <= 1 /\
+             Rabs (u - u1) <= 1 / (2 * INR (n - 1)).
+Proof. exact three_uniform_u1_covers. Qed.
+Print Assumptions C19_three_uniform_u1_covers.
+
 (* ==================================================== step counts (exact Q) === *)
 Theorem C19_num_steps : forall (res : Q) even odd, (0 < res)%Q ->
   (360 <= inject_Z (resolution_to_num_steps res even odd) * res)%Q /\
